@@ -448,6 +448,29 @@ def shape_defs(rng, builtins):
         d = {'name': 'ShScope%d' % i, 'items': [('errortype',), ('let', 'tv', chr_(t))] + sets}
         if well_formed(d, builtins):
             out.append(d)
+    # the same local name bound to different CLASSES in different rule sets, used as right/left operand of `#`, inside a context class, and plainly
+    for i in range(3):
+        l6 = rng.sample([ord(ch) for ch in 'abcdefgh'], 6)
+        sets = []
+        for j in range(2 + i % 2):
+            nm = 'Init' if j == 0 else 'R%d' % j
+            bound = set_(l6[j], l6[(j + 2) % 6])
+            rs = [('let', 'y', bound), rule('infallible', ('diff', set_((ord('a'), ord('h'))), ('var', 'y'))),
+                  rule('simple', ('plus', ('var', 'y')), ('diff', ANY, ('var', 'y'))),
+                  rule('simple', cat(('diff', ('var', 'y'), chr_(l6[j])), chr_('!'))), rule('simple', ANY)]
+            sets.append(('ruleset', nm, rs))
+        d = {'name': 'ShScopeCls%d' % i, 'items': [('errortype',)] + sets}
+        if well_formed(d, builtins):
+            out.append(d)
+    # right contexts whose classes have one-character holes, in non-final position (C04: every arm of a context function must test its own class)
+    for i in range(4):
+        a, b, c, h = rng.sample([ord(ch) for ch in 'abcdefgh'], 4)
+        holes = [cat(('diff', ANY, chr_(h)), chr_(c)), cat(set_((ord('a'), h - 1) if h > ord('a') else (h + 1, h + 1), (h + 1, ord('i'))), chr_(c)),
+                 cat(chr_(b), ('diff', set_((ord('a'), ord('h'))), chr_(h)), chr_(c)), cat(('star', ('diff', ANY, chr_(h))), chr_(h), chr_(c))]
+        items = [rule('simple', chr_(a), holes[i]), rule('simple', chr_(a), cat(chr_(h), chr_(c))), rule('simple', ('plus', chr_(a)), holes[(i + 1) % 4]), rule('simple', ANY)]
+        d = {'name': 'ShCtxHole%d' % i, 'items': [('errortype',)] + items}
+        if well_formed(d, builtins):
+            out.append(d)
     # classes touching 0, the surrogate gap, char::MAX (C11, C12)
     cls_exprs = [('diff', ANY, set_((0xD000, 0xE000))), ('diff', ANY, chr_(0)), ('diff', ANY, chr_(0x10FFFF)),
                  ('diff', set_((0, 0x10FFFF)), set_((1, 0xD7FF), (0xE000, 0x10FFFE))),
